@@ -897,12 +897,18 @@ C02_DOCS = {
         "patternProperties": {"^x": {"type": "integer"}}, "dependencies": {"u": ["m"]}, "propertyNames": {"maxLength": 5}},
     "array_root.json": {"type": "array", "title": "Arr", "items": {"type": "object", "title": "Elem", "properties": {"v": {"type": "string", "format": "uuid"}}}},
 }
-C02_ROOTS = ["simple.json", "nested.json", "refs.json", "noprops.json", "compose.json", "array_root.json"]
+C02_DOCS["sameshape.json"] = {"type": "object", "title": "Order", "properties": {
+    "billing": {"type": "object", "title": "BillingAddress", "properties": {"street": {"type": "string"}}, "required": ["street"]},
+    "shipping": {"type": "object", "title": "ShippingAddress", "properties": {"street": {"type": "string"}}, "required": ["street"]},
+    "pets": {"anyOf": [{"type": "object", "title": "Cat", "properties": {"n": {"type": "string"}}}, {"type": "object", "title": "Dog", "properties": {"n": {"type": "string"}}}]},
+    "pair": {"type": "array", "items": [{"type": "object", "title": "Left"}, {"type": "object", "title": "Right"}]}}}
+C02_ROOTS = ["simple.json", "nested.json", "refs.json", "noprops.json", "compose.json", "array_root.json", "sameshape.json"]
 C02_VALUES = [{}, {"a": "s"}, {"a": "s", "b": 1}, {"a": 1}, {"inner": {"n": 1}}, {"inner": {}}, {"list": [{"k": "s"}, {"k": 1}]}, {"list": [{"k": "s"}]},
               {"untitled": {"z": True}}, {"untitled": {"z": 1}}, {"tuple": [{"k": 1}, "s"]}, {"tuple": [{"k": "s"}]}, {"a": {"x": "s"}}, {"a": {"x": 1}},
               {"c": {"z": 1}}, {"c": {}}, {"d": [{"y": 1}]}, {"d": [{"y": 1, "w": 2}]}, {"k": {"v": "s"}}, {"k": {"v": 1}}, {"k": {}}, {"u": "s", "m": None},
               {"u": {"q": None}, "m": "s"}, {"u": 1}, {"u": "s"}, {"n": 1}, {"n": "s"}, {"a-b": "s"}, {"a-b": 1}, {"class": 1}, {"class": "s"}, {"o": 5}, {"o": "ab"},
-              {"o": "abc"}, {"o": 1}, {"x1": 1}, {"x1": "s"}, {"toolongname": 1}, [], [{"v": "123e4567-e89b-12d3-a456-426614174000"}], [{"v": "nope"}], [1], "s", None]
+              {"o": "abc"}, {"o": 1}, {"x1": 1}, {"x1": "s"}, {"toolongname": 1}, [], [{"v": "123e4567-e89b-12d3-a456-426614174000"}], [{"v": "nope"}], [1], "s", None,
+              {"billing": {"street": "a"}, "shipping": {"street": "b"}}, {"billing": {}}, {"shipping": {"street": 1}}, {"pets": {"n": "x"}}, {"pets": {"n": 1}}, {"pair": [{}, {}]}]
 
 
 def materialise(tmp, name):
